@@ -24,6 +24,7 @@ type c09Grid struct {
 	ID                     int
 	MinX, MinY, MaxX, MaxY int64 // half-open extent in fixed-point units (reference, from the set's definition)
 	Pixel                  int64 // pixel size of ID in units
+	OutsideOnly            bool  // no inside controls (non-round grids: see c09Grids)
 }
 
 type c09Case struct {
@@ -65,6 +66,22 @@ func c09Grids() []c09Grid {
 			MinX: -2854019200000000, MaxX: 5954019200000000, MinY: 225980800000000, MaxY: 9034019200000000,
 			Pixel: 34406400000000 / 16 >> uint(id)})
 	}
+	// a grid whose extent does not divide evenly into pixels (the pixel size is truncated, so the pixel grid is a little
+	// narrower than the extent): only vertices OUTSIDE are judged here - vertices inside the extent but beyond the last
+	// pixel are finding F6 (C06).  The extent is the one the set's own MatrixBoundingBox reports, quantised as specified.
+	wm, err := tms20.LoadEmbeddedTileMatrixSet("WebMercatorQuad")
+	if err != nil {
+		ev.HarnessError("WebMercatorQuad: %v", err)
+	}
+	bl, tr, err := wm.MatrixBoundingBox(0)
+	if err != nil {
+		ev.HarnessError("WebMercatorQuad: %v", err)
+	}
+	for _, id := range []int{14, 16} {
+		minX, minY, maxX, maxY := quantise(bl[0]), quantise(bl[1]), quantise(tr[0]), quantise(tr[1])
+		gs = append(gs, c09Grid{Name: "WebMercatorQuad", TMS: wm, ID: id, MinX: minX, MinY: minY, MaxX: maxX, MaxY: maxY,
+			Pixel: (maxX - minX) >> uint(id+12), OutsideOnly: true})
+	}
 	return gs
 }
 
@@ -81,6 +98,9 @@ func c09Run(r *ev.Run, shardI, shardN int) scopeReport {
 		for _, border := range []string{"left", "bottom", "right", "top"} {
 			for _, off := range offsets {
 				for _, side := range []int64{1, -1} { // outside, inside (negative control)
+					if side < 0 && g.OutsideOnly {
+						continue
+					}
 					for ringNo := 0; ringNo < 2; ringNo++ {
 						ringLen := 4
 						if ringNo == 1 {
@@ -108,6 +128,9 @@ func c09Run(r *ev.Run, shardI, shardN int) scopeReport {
 				for _, dx := range ds {
 					for _, dy := range ds {
 						if dx < 0 && dy < 0 {
+							continue
+						}
+						if g.OutsideOnly && (dx < 0 || dy < 0) {
 							continue
 						}
 						for ringNo := 0; ringNo < 2; ringNo++ {
